@@ -1347,6 +1347,60 @@ example : DocTI (retOf incDoc) incDoc ∧ DocTI (retOf surDoc) surDoc ∧
   ⟨(inDocI_sound incDoc (by decide)).tax, (inDocI_sound surDoc (by decide)).tax, by decide, by decide, by decide,
     by decide, by decide, by decide⟩
 
+/-- the two row theorems with the hypothesis and the exact quantities the model driver evaluates
+(`Spec/C01.lean`: `inDocI`; `catAmountQ`, `catSurchargeQ`, `groupBaseQ` over `exactTaxRows`, written
+there without reference to the proof files): every category amount / surcharge and every group base /
+amount / surcharge of the presented summary is within half a minor unit plus its weight × half a unit
+of the working precision of the exact value.  The check holds the real library's tax summary of every
+generated document of the class to these bounds (driver request `taxrows`, counters
+`tax-rows:…`). -/
+theorem tax_rows_decided (d : Doc) (out : Out) (t : Totals) (hcls : inDocI d = true)
+    (hcalc : calculate exactOps d = .ok out) (ht : out.totals = some t)
+    (tx : TaxTotal) (htx : t.taxes = some tx) :
+    (∀ k ct, tx.cats.find? (fun ct => ct.code == k) = some ct →
+      |ct.amount.toRat - catAmountQ d k| ≤
+        halfUlp d.c + ((ct.rates.length + rowsWL (kN (some k)) d.includes d : ℕ) : ℚ) * halfUlp (d.c + 2) ∧
+      ∀ s, ct.surcharge = some s → |s.toRat - catSurchargeQ d k| ≤
+        halfUlp d.c + ((ct.rates.length + rowsWL (kN (some k)) d.includes d : ℕ) : ℚ) * halfUlp (d.c + 2)) ∧
+    (∀ ct ∈ tx.cats, ∀ rt ∈ ct.rates,
+      |rt.base.toRat - groupBaseQ d ct.code (Spec.C02.keyOfRate rt)| ≤
+        halfUlp d.c + (rowsWL (gN ct.code (Spec.C02.keyOfRate rt)) d.includes d : ℚ) * halfUlp (d.c + 2) ∧
+      (∀ p, rt.percent = some p →
+        |rt.amount.toRat - groupBaseQ d ct.code (Spec.C02.keyOfRate rt) * p.amount.toRat| ≤
+          halfUlp d.c + (1 + |p.amount.toRat| * (rowsWL (gN ct.code (Spec.C02.keyOfRate rt)) d.includes d : ℚ)) * halfUlp (d.c + 2)) ∧
+      (∀ p sp sa, rt.percent = some p → rt.surcharge = some (sp, sa) →
+        |sa.toRat - groupBaseQ d ct.code (Spec.C02.keyOfRate rt) * sp.amount.toRat| ≤
+          halfUlp d.c + (1 + |sp.amount.toRat| * (rowsWL (gN ct.code (Spec.C02.keyOfRate rt)) d.includes d : ℚ)) * halfUlp (d.c + 2))) := by
+  have hd := (inDocI_sound d hcls).tax
+  have tri : ∀ (a : Amount) (w q B : ℚ), presents d.c a w → |w - q| ≤ B → |a.toRat - q| ≤ halfUlp d.c + B := by
+    intro a w q B hp hw
+    have h1 := presents_err d.c a w hp
+    have e : a.toRat - q = (a.toRat - w) + (w - q) := by ring
+    rw [e]
+    exact le_trans (abs_add_le _ _) (add_le_add h1 hw)
+  refine ⟨?_, ?_⟩
+  · intro k ct hf
+    obtain ⟨h1, h2, ws, h3, h4⟩ := calc_tax_category_rows_spec (retOf d) d out t hd hcalc ht tx htx k ct hf
+    rw [catExactQ_selP] at h2
+    rw [catExactQ_selS] at h4
+    refine ⟨tri _ _ _ _ h1 h2, ?_⟩
+    intro s hs
+    rw [h3] at hs
+    simp only [Option.map_eq_some_iff] at hs
+    obtain ⟨y, hy, rfl⟩ := hs
+    rw [hy] at h4
+    exact tri _ _ _ _ (presents_rescale d.c y) h4
+  · intro ct hct rt hrt
+    obtain ⟨bw, g1, g2, g3, g4⟩ := calc_tax_group_rows_spec (retOf d) d out t hd hcalc ht tx htx ct hct rt hrt
+    rw [grpExactQ_eq] at g2 g3 g4
+    refine ⟨tri _ _ _ _ g1 g2, ?_, ?_⟩
+    · intro p hp
+      obtain ⟨aw, a1, a2⟩ := g3 p hp
+      exact tri _ _ _ _ a1 a2
+    · intro p sp sa hp hs
+      obtain ⟨sw, a1, a2⟩ := g4 p sp sa hp hs
+      exact tri _ _ _ _ a1 a2
+
 /-! ## tighter weights: the actual percentages
 
 The weights of `calc_eq_spec` / `calc_eq_spec_included` bound every percentage by 100 %.  With the
